@@ -151,6 +151,21 @@ PROPS = {
         'level_text': 'Verus proves on the real interpreter bodies (match_opcode with all of its ~100 arms, match_script_bit, next_impl, run_impl, the eight script-stack primitives, to_bigint) with no precondition on script or stack contents: no arithmetic underflow / overflow, no out-of-range index / remove / insert / swap / split, no unwrap of None, no division by zero or negative shift, no unreachable/todo; each successful step strictly decreases the number of script nodes not yet executed (IF splicing included), so stepping and running terminate; after an Err the main and alt stacks and the script are unchanged; None is returned only at the end of the script.',
         'level_note': TB,
     },
+    'C19': {
+        'units': {
+            'template': ['*'],
+            'signature_glue': ['Signature::from_der_impl'],
+            'keys_glue': ['PublicKey::from_bytes_impl'],
+        },
+        'assumptions': ['"decodes as a signature / public key" is what Signature::from_der_impl / PublicKey::from_bytes_impl accept (their contracts are proved in signature_glue / keys_glue over the uninterpreted DER and SEC1 decoders of k256)',
+                        'the script an input is matched on is the result of TxIn::get_finalised_script_impl (uninterpreted here; its contract is proved in unit interp_sig, C15)',
+                        'derive(PartialEq) on OpCodes is structural; Option<u64> comparison operators follow vstd (None < Some(_))',
+                        'inputs that record no value: the property is silent; the proved selection predicate treats the value as unknown (fails any exact / minimum bound, is not subjected to a maximum bound)',
+                        'NOT covered: the template text grammar (ScriptTemplate::map_string_to_match_token, from_asm_string_impl: str::split_once / starts_with / FromStr, outside Verus\' str support), hence also "a script matches the template derived from itself" (goes through the ASM text, C17) and the operator-precedence clause of the token grammar'],
+        'design_ref': 'DESIGN.md section 4 C19',
+        'level_text': 'Verus proves on the real bodies of Script::match_impl / test_impl / is_match: the result is Ok exactly when template and script have the same number of elements and every element satisfies its token, with the token relation written from the property statement (exact opcode / push / pushdata equality, the five length comparisons of a data token against the payload length, any-data, signature = strict DER optionally followed by a flag byte, public key = valid SEC1 point, public-key hash = 20 bytes; the last three only on direct pushes), and the extracted list is exactly the matched pushes in script order tagged with their token kind; and on Transaction::is_matching_output / is_matching_input / match_output(s) / match_input(s): an output is selected exactly when its script matches the template (if any) and its value satisfies the exact, minimum and maximum bounds (inclusive), the plural forms return exactly the selected indices in increasing order and the singular forms the first one (None only when nothing is selected); an input whose script cannot be assembled is not selected (no panic).',
+        'level_note': TB,
+    },
     'C20': {
         'units': {
             'aes_glue': ['*'],
@@ -247,7 +262,6 @@ PROPS = {
 }
 
 NOT_CLAIMED = {
-    'C17': 'not reached yet',
+    'C17': 'not applicable to contract-based verification with the installed verifiers: every mechanism of the property is text processing (String / &str: format!, ToString of strum-generated opcode names, hex text, join / split / trim, matching on string literals, FromStr). Verus treats str contents as opaque (no byte or character reasoning; string-literal patterns, iterator adapters over split are rejected) and a Kani harness over symbolic strings through format!/strum/hex does not terminate within memory; a contract over uninterpreted text functions would only restate the code. A concrete violation found while reading the code is documented in DESIGN.md section 4 C17 (a one-byte push 0x10..0x16 renders as "10".."16" and re-parses as OP_10..OP_16; probe c17_one_byte_push_hex_collides_with_numeric_alias), but no check is registered',
     'C18': 'not applicable to contract-based verification: the behaviour lives in serde derive expansions and in serde_json/ciborium, there is no function body in /repo to put a contract on (DESIGN.md section 5)',
-    'C19': 'not reached yet',
 }
